@@ -20,6 +20,7 @@ CONFIG = dict(
     trusted_base=[],
     modelled_not_verified=[],
     assumptions=[],
+    impl_only_re=r"^\(x ",
     claimed=False,
     na_reason="under construction",
 )
@@ -365,8 +366,8 @@ def gen_nlri_api(r):
 # ----------------------------------------------------------------------------- exploration of unmodelled kinds
 def mutate(r, b):
     b = list(b)
-    m = r.below(6)
-    if m <= 2 or not b:
+    m = 3 + r.below(3)
+    if not b:
         return b
     if m == 3:
         i = r.below(len(b)); b[i] = r.below(256)
@@ -378,15 +379,25 @@ def mutate(r, b):
 
 
 def gen_explore(r):
+    """pristine fixtures (`attr-`/`nlri-`: exact round trip demanded) and mutated ones (`mattr-`/`mnlri-`:
+    no panic, accepted back, display stable)"""
+    pristine = r.chance(1, 3)
     if ATTR_SEEDS and (not NLRI_SEEDS or r.chance(1, 2)):
         name, code, flags, b = r.pick(ATTR_SEEDS)
-        b = mutate(r, b)
+        if name == "ls" and r.chance(1, 3):                 # several TLVs in one BGP-LS attribute
+            b = b + r.pick([s for s in ATTR_SEEDS if s[0] == "ls"])[3]
+        if not pristine:
+            b = mutate(r, b)
         if len(b) > 255:
             flags |= 0x10
-        return "(x attr-%s %d %d %s)" % (name, code, flags, hx(b))
+        return "(x %sattr-%s %d %d %s)" % ("" if pristine else "m", name, code, flags, hx(b))
     if NLRI_SEEDS:
         name, afi, safi, b = r.pick(NLRI_SEEDS)
-        return "(x nlri-%s %d %d %s)" % (name, afi, safi, hx(mutate(r, b)))
+        if r.chance(1, 4):                                  # two NLRIs of the family in one MP_REACH
+            b = b + r.pick([s for s in NLRI_SEEDS if s[0] == name])[3]
+        if not pristine:
+            b = mutate(r, b)
+        return "(x %snlri-%s %d %d %s)" % ("" if pristine else "m", name, afi, safi, hx(b))
     return "(x attr-none 23 192 x)"
 
 
